@@ -30,7 +30,7 @@ import (
 func TestMain(m *testing.M) { evid.Main("C13", m) }
 
 type Case struct {
-	Op      string `json:"op"`      // commit | commit-first | commit-same | merge | prune | fetch | pull | pull-new
+	Op      string `json:"op"`      // commit | commit-first | commit-same | commit-unchanged | merge | prune | fetch | pull | pull-new
 	Rows    int    `json:"rows"`    // size of the base table
 	Edit    int    `json:"edit"`    // row edited by the operation's data
 	Subproc bool   `json:"subproc"` // kill a real wrgl subprocess instead of failing writes in-process
@@ -41,7 +41,7 @@ var sub = evid.Register("crash", run)
 func TestPropCrash(t *testing.T) {
 	rapid.Check(t, func(t *rapid.T) {
 		c := Case{
-			Op:   rapid.SampledFrom([]string{"commit", "commit-first", "merge", "prune", "fetch", "pull", "commit-same", "pull-new"}).Draw(t, "op"),
+			Op:   rapid.SampledFrom([]string{"commit", "commit-first", "merge", "prune", "fetch", "pull", "commit-same", "pull-new", "commit-unchanged"}).Draw(t, "op"),
 			Rows: rapid.SampledFrom([]int{3, 40, 256, 300, 520}).Draw(t, "rows"),
 		}
 		c.Edit = rapid.IntRange(0, c.Rows-1).Draw(t, "edit")
@@ -164,6 +164,12 @@ func setup(c Case) (*world, error) {
 			return nil, err
 		}
 		w.args = []string{"commit", "main", edited, "second", "-p", "id", "-n", "1"}
+	case "commit-unchanged":
+		// the branch file is committed once more without having changed: "nothing to commit"
+		if err := run("commit", "main", base, "first", "-p", "id", "-n", "1", "--set-file", "--set-primary-key"); err != nil {
+			return nil, err
+		}
+		w.args = []string{"commit", "main", "again", "-n", "1"}
 	case "commit-same":
 		// the data being committed is already the table of another branch (tables are content
 		// addressed: whatever the interrupted commit does must not hurt that branch)
@@ -248,6 +254,7 @@ func run(c Case) (o evid.Outcome, err error) {
 	}
 	defer w.cleanup()
 	defer verifhook.SetPlan(verifhook.Plan{})
+	defer verifhook.SetReadPlan(0)
 	checkHeads := c.Op != "prune"
 	if c.Subproc && (c.Op == "fetch" || c.Op == "pull" || c.Op == "pull-new") {
 		return o, fmt.Errorf("HARNESS: subprocess mode is not available for %s", c.Op)
@@ -311,6 +318,62 @@ func run(c Case) (o evid.Outcome, err error) {
 			}
 			points++
 		}
+	}
+	// ---- read faults: the n-th read of an object fails once (verif hook in the object store).
+	// The command must fail - leaving a consistent repository on which the same command then
+	// succeeds and ends where an uninterrupted run ends - or succeed with exactly that outcome.
+	readPoints := 0
+	// (not for merge: when one differ fails, `wrgl merge` returns while the other differ is still
+	// reading, and closing the store under it crashes the process inside badger - in a one-shot CLI
+	// process that is an ugly exit, in this in-process harness it would end the run; see DESIGN 10.6)
+	if !c.Subproc && (c.Op == "commit" || c.Op == "commit-same" || c.Op == "commit-unchanged") {
+		if err := w.restore(); err != nil {
+			return o, fmt.Errorf("HARNESS: restore: %v", err)
+		}
+		verifhook.SetReadPlan(0)
+		if out, err := w.repo.Run(w.args...); err != nil {
+			return o, fmt.Errorf("uninterrupted %s (second time): %v (%s)", c.Op, err, out)
+		}
+		nreads, _ := verifhook.Reads()
+		step := 1
+		if nreads > 40 {
+			step = nreads/40 + 1
+		}
+		for n := 1 + c.Edit%step; n <= nreads; n += step {
+			if err := w.restore(); err != nil {
+				return o, fmt.Errorf("HARNESS: restore: %v", err)
+			}
+			what := fmt.Sprintf("%s with object read %d of %d failing", c.Op, n, nreads)
+			verifhook.SetReadPlan(n)
+			_, rerr := w.repo.Run(w.args...)
+			_, hit := verifhook.Reads()
+			verifhook.SetReadPlan(0)
+			if !hit {
+				continue
+			}
+			got, err := w.inspect(checkHeads)
+			if err != nil {
+				return o, fmt.Errorf("%s: %v", what, err)
+			}
+			if rerr == nil {
+				if got != want {
+					return o, fmt.Errorf("%s: the command reported success, but the refs end at different tables/history than without the failure:\n got  %s want %s", what, got, want)
+				}
+			} else {
+				if out, err := w.repo.Run(w.args...); err != nil {
+					return o, fmt.Errorf("%s: running the operation again fails: %v (%s)", what, err, strings.TrimSpace(out))
+				}
+				got, err := w.inspect(checkHeads)
+				if err != nil {
+					return o, fmt.Errorf("%s, then re-run: %v", what, err)
+				}
+				if got != want {
+					return o, fmt.Errorf("%s, then re-run: refs end at different tables/history than an uninterrupted run:\n got  %s want %s", what, got, want)
+				}
+			}
+			readPoints++
+		}
+		evid.Count("read-fault points executed ("+c.Op+")", readPoints)
 	}
 	o.NonTrivial = total >= 4
 	o.Class("op=%s", c.Op)
@@ -426,9 +489,52 @@ func runRecv(c RecvCase) (o evid.Outcome, err error) {
 		if err := repocheck.Consistent(dst, rs); err != nil {
 			return o, fmt.Errorf("receive interrupted at store write %d of %d: %v", n, total, err)
 		}
-		// fetching again (same packfiles into the surviving store) completes
-		if err := receive(dst); err != nil {
-			return o, fmt.Errorf("receive interrupted at store write %d of %d: receiving again fails: %v", n, total, err)
+		// fetching again completes. Odd n: the same packfiles once more. Even n: what a renegotiated
+		// transfer sends - only the commits the destination does not have and only the tables it
+		// does not have (a table that is present counts as transferred, with its index and profile)
+		if n%2 == 1 {
+			if err := receive(dst); err != nil {
+				return o, fmt.Errorf("receive interrupted at store write %d of %d: receiving again fails: %v", n, total, err)
+			}
+		} else {
+			var toSend2 []*objects.Commit
+			tables2 := map[string]struct{}{}
+			var expect [][]byte
+			for i, s := range sums {
+				if !objects.CommitExist(dst, s) {
+					toSend2 = append(toSend2, toSend[i])
+					expect = append(expect, s)
+				}
+			}
+			for ts := range tables {
+				if !objects.TableExist(dst, []byte(ts)) {
+					tables2[ts] = struct{}{}
+				}
+			}
+			if len(toSend2) > 0 {
+				sender2, err := apiutils.NewObjectSender(src, toSend2, tables2, nil, uint64(c.Limit))
+				if err != nil {
+					return o, fmt.Errorf("HARNESS: %v", err)
+				}
+				recv := apiutils.NewObjectReceiver(dst, expect, logr.Discard())
+				for {
+					var buf bytes.Buffer
+					done, _, err := sender2.WriteObjects(&buf, nil)
+					if err != nil {
+						return o, fmt.Errorf("HARNESS: %v", err)
+					}
+					pr, err := packfile.NewPackfileReader(io.NopCloser(bytes.NewReader(buf.Bytes())))
+					if err != nil {
+						return o, fmt.Errorf("HARNESS: %v", err)
+					}
+					if _, err := recv.Receive(pr, nil); err != nil {
+						return o, fmt.Errorf("receive interrupted at store write %d of %d: the renegotiated transfer fails: %v", n, total, err)
+					}
+					if done {
+						break
+					}
+				}
+			}
 		}
 		if err := repocheck.Consistent(dst, rs); err != nil {
 			return o, fmt.Errorf("receive interrupted at write %d then repeated: %v", n, err)
